@@ -11,7 +11,7 @@ def combos(ctx, rnd):
     from wcmatch import glob as G
     S, D, E, F, L, ND, N, SD, NU, B, SP = G.GLOBSTAR, G.DOTGLOB, G.EXTGLOB, G.FOLLOW, G.GLOBSTARLONG, G.NODIR, G.NEGATE, G.SCANDOTDIR, G.NOUNIQUE, G.BRACE, G.SPLIT
     pats = ['*', '**', '*/x', 'x', '**/x', 'a/*', '.*', '**/.*', '*/', 'a', 'd', 'd/*', '*/*', '/a', '/*', '$ABS', 'L/*', '?', '@(a|b)/*', '!(a)', 'a/../*', './*',
-            ['*', 'a/*'], ['*', '*/'], ['a', './a', 'a/', 'a/.'], '{b,/a}/*', '*|/a/*', ['*', '!a'], '*.x', 'lf', '**/f']
+            ['*', 'a/*'], ['*', '*/'], ['a', './a', 'a/', 'a/.'], '{b,/a}/*', '*|/a/*', ['*', '!a'], '*.x', 'lf', '**/f', 'a\\/x', 'd\\/f', 'd\\/d', 'c\\/x', 'q\\/f', 'b\\/c\\/x', 'd/f', 'c/x', 'q/f', 's1', 'Data/s1']
     fsets = [S, S | D, S | E, S | F, L, S | ND, S | SD, S | D | SD, S | NU, S | E | N, S | B, S | SP]
     names = list(symfs.templates())
     out = []
